@@ -14,7 +14,9 @@ fn position_differential<const N: usize>() {
     // reachability witnesses first: Kani assumes an assertion after checking it
     kani::cover!(want.0 == 1 && want.1 == 1, "second line, second column");
     kani::cover!(index == len && len > 0 && s[len - 1] == b'\n', "end of input after a newline");
-    kani::cover!(index < len && s[index] >= 0x80 && index >= 1 && s[0] >= 0x80, "multi-byte char at index, multi-byte char before it");
+    if N >= 4 {
+        kani::cover!(index < len && s[index] >= 0x80 && index >= 1 && s[0] >= 0x80, "multi-byte char at index, multi-byte char before it");
+    }
     assert!(got.0 == want.0, "line differs");
     assert!(got.1 == want.1, "column differs (characters, not bytes)");
     // `raw.split('\n').nth(line).expect("valid line number")` in Display cannot fail
@@ -32,6 +34,7 @@ fn position_differential<const N: usize>() {
 #[kani::proof]
 #[kani::unwind(6)]
 #[kani::stub(core::str::from_utf8, stub_from_utf8)]
+#[kani::stub(core::str::count::count_chars, stub_count_chars)]
 pub fn c15_translate_position_u4() {
     position_differential::<4>();
 }
@@ -39,8 +42,33 @@ pub fn c15_translate_position_u4() {
 #[kani::proof]
 #[kani::unwind(5)]
 #[kani::stub(core::str::from_utf8, stub_from_utf8)]
+#[kani::stub(core::str::count::count_chars, stub_count_chars)]
 pub fn c15_translate_position_u3() {
     position_differential::<3>();
+}
+
+#[kani::proof]
+#[kani::unwind(7)]
+#[kani::stub(core::str::from_utf8, stub_from_utf8)]
+#[kani::stub(core::str::count::count_chars, stub_count_chars)]
+pub fn c15_translate_position_u5() {
+    position_differential::<5>();
+}
+
+#[kani::proof]
+#[kani::unwind(8)]
+#[kani::stub(core::str::from_utf8, stub_from_utf8)]
+#[kani::stub(core::str::count::count_chars, stub_count_chars)]
+pub fn c15_translate_position_u6() {
+    position_differential::<6>();
+}
+
+#[kani::proof]
+#[kani::unwind(10)]
+#[kani::stub(core::str::from_utf8, stub_from_utf8)]
+#[kani::stub(core::str::count::count_chars, stub_count_chars)]
+pub fn c15_translate_position_u8() {
+    position_differential::<8>();
 }
 
 /// Layout harness: exactly two 2-byte characters (`[C2..DF][80..BF]` twice), every index on a
@@ -48,6 +76,7 @@ pub fn c15_translate_position_u3() {
 #[kani::proof]
 #[kani::unwind(6)]
 #[kani::stub(core::str::from_utf8, stub_from_utf8)]
+#[kani::stub(core::str::count::count_chars, stub_count_chars)]
 pub fn c15_translate_position_two_wide() {
     let buf: [u8; 4] = kani::any();
     kani::assume(buf[0] >= 0xC2 && buf[0] <= 0xDF && buf[2] >= 0xC2 && buf[2] <= 0xDF);
@@ -69,6 +98,7 @@ pub fn c15_translate_position_two_wide() {
 #[kani::proof]
 #[kani::unwind(8)]
 #[kani::stub(core::str::from_utf8, stub_from_utf8)]
+#[kani::stub(core::str::count::count_chars, stub_count_chars)]
 pub fn c15_translate_position_three_chars() {
     let mut buf = [0u8; 6];
     let mut starts = [0usize; 4];
